@@ -31,10 +31,11 @@ def extra_designs():
     out.append(D([A2, B2, W3, TRA], cross('ABWR', 'AB', [['AtMostKInARow', 1, 'R', 'r0']])))
     out.append(D([A2, B2, TRA, window('W', 'B', 2, stride=2)], cross('ABRW', 'AB', [['ExactlyK', 1, 'W', 'w0']])))
     # Nest whose outer crossing contains a transition; an uncrossed window factor kept active by a constraint
-    out.append(D([A2, B2, TRA, TRB], nest(cross('AR', 'AR'), cross('BS', 'B', [['AtMostKInARow', 2, 'S', 's0']]))))
+    out.append(D([A2, B2, TRA, TRB], nest(cross('AR', 'AR'), cross('BS', 'B', [['AtMostKInARow', 2, 'S', 's0']]), alignment='parallel start')))
     out.append(D([A2, B2, C2, TRA, transition('Q', 'C')],
-                 nest(cross('AR', 'AR'), cross('BCQ', 'B', [['AtMostKInARow', 2, 'Q', 'q0']]))))
-    out.append(D([A2, B2, TRA], nest(cross('AR', 'AR'), cross('B', 'B'))))
+                 nest(cross('AR', 'AR'), cross('BCQ', 'B', [['AtMostKInARow', 2, 'Q', 'q0']]), alignment='parallel start')))
+    out.append(D([A2, B2, TRA], nest(cross('AR', 'AR'), cross('B', 'B'), alignment='parallel start')))
+    out.append(D([A2, B2, TRA, TRB], nest(cross('AR', 'AR'), cross('BS', 'B', [['AtMostKInARow', 2, 'S', 's0']]), alignment='post preamble')))
     out.append(D([A2, B2, TRA], nest(cross('AR', 'A', [['AtMostKInARow', 3, 'R', 'r0']]), cross('B', 'B'))))
     return out
 
